@@ -307,7 +307,11 @@ void sigma_grids(Ctx &c) {
     default: { int gs = vnacal_make_scalar_parameter(vc.p, todcx(LC(0.8L, -0.1L))); other = vnacal_make_unknown_parameter(vc.p, gs); c.label("other:unknown"); break; }
     }
     PBT_CHECK(c, other >= 3, "C10.make_parameter", "making the 'other' parameter failed: %s", vc.log.text().c_str());
-    int scen = c.weighted({4, 2, 2, 1, 1});       // 0 cover, 1 low shortfall, 2 high shortfall, 3 both, 4 one point
+    // which frequency-limited thing the standard's parameter hangs on: 0 = the sigma grid of a correlated parameter
+    // (above), 1 = the VECTOR initial guess of an unknown parameter, 2 = the vector parameter a correlated parameter is
+    // correlated with (1-point sigma), 3 = a correlated parameter on an unknown parameter with a vector guess
+    int which = c.weighted({4, 3, 2, 1});
+    int scen = c.weighted({4, 2, 2, 1, which == 0 ? 1u : 0u});       // 0 cover, 1 low shortfall, 2 high shortfall, 3 both, 4 one point
     int n = scen == 4 ? 1 : 2 + (int)c.draw(7);
     double glo = (scen == 1 || scen == 3) ? lo * (1.05 + 0.3 * c.unit()) : lo * (0.5 + 0.5 * c.unit());
     double ghi = (scen == 2 || scen == 3) ? hi * (0.95 - 0.3 * c.unit()) : hi * (1.0 + c.unit());
@@ -316,8 +320,20 @@ void sigma_grids(Ctx &c) {
     std::vector<double> grid = n == 1 ? std::vector<double>{hi * 3} : gen_grid(c, n, glo, ghi);      // 1 point: a frequency far outside, "ignored"
     std::vector<double> sig; for (int i = 0; i < n; i++) sig.push_back(0.01 * (1 + c.unit()));
     vc.log.clear();
-    int h = vnacal_make_correlated_parameter(vc.p, other, grid.data(), n, sig.data());
-    PBT_CHECK(c, h >= 3, "C10.make_correlated", "vnacal_make_correlated_parameter (%d sigma knots) failed: %s", n, vc.log.text().c_str());
+    int h;
+    if (which == 0) {
+        h = vnacal_make_correlated_parameter(vc.p, other, grid.data(), n, sig.data());
+        PBT_CHECK(c, h >= 3, "C10.make_correlated", "vnacal_make_correlated_parameter (%d sigma knots) failed: %s", n, vc.log.text().c_str());
+    } else {
+        std::vector<dcx> gv(grid.size(), todcx(LC(0.7L, 0.2L)));
+        int vec = vnacal_make_vector_parameter(vc.p, grid.data(), n, gv.data());
+        PBT_CHECK(c, vec >= 3, "C10.make_vector", "make_vector_parameter failed: %s", vc.log.text().c_str());
+        double s1 = 0.02;
+        if (which == 1) { h = vnacal_make_unknown_parameter(vc.p, vec); c.label("limited-by:unknown-with-vector-guess"); }
+        else if (which == 2) { h = vnacal_make_correlated_parameter(vc.p, vec, nullptr, 1, &s1); c.label("limited-by:correlate-is-a-vector"); }
+        else { int u = vnacal_make_unknown_parameter(vc.p, vec); PBT_CHECK(c, u >= 3, "C10.make_parameter", "make_unknown_parameter failed"); h = vnacal_make_correlated_parameter(vc.p, u, nullptr, 1, &s1); c.label("limited-by:correlate-is-an-unknown-with-vector-guess"); }
+        PBT_CHECK(c, h >= 3, "C10.make_parameter", "making the frequency-limited parameter (variant %d) failed: %s", which, vc.log.text().c_str());
+    }
     std::vector<dcx> mv(F, mkc(0.3, 0.2)); dcx *mm[1] = {mv.data()};
     vc.log.clear(); errno = 0;
     int rc = vnacal_new_add_single_reflect_m(vnp, mm, 1, 1, h, 1); int err = errno;
@@ -326,14 +342,14 @@ void sigma_grids(Ctx &c) {
     if (scen == 2) c.label("sigma:high-end-shortfall"); if (scen == 1) c.label("sigma:low-end-shortfall"); if (scen == 4) c.label("sigma:one-point");
     if (set_first) {
         if (must_refuse) {
-            PBT_CHECK(c, rc == -1, "C10.sigma_shortfall_accepted", "standard with a correlated parameter whose sigma grid [%g, %g] misses the calibration band [%g, %g] (%s by >= 5%%) accepted", grid.front(), grid.back(), lo, hi, scen == 1 ? "the low end" : scen == 2 ? "the high end" : "both ends");
+            PBT_CHECK(c, rc == -1, "C10.sigma_shortfall_accepted", "standard whose parameter is only defined on [%g, %g] (sigma grid, vector guess or vector correlate) misses the calibration band [%g, %g] (%s by >= 5%%) accepted", grid.front(), grid.back(), lo, hi, scen == 1 ? "the low end" : scen == 2 ? "the high end" : "both ends");
             PBT_CHECK(c, err == EINVAL && vc.log.n_nonwarning() >= 1 && vc.log.last()->category == VNAERR_USAGE, "C10.refusal_report", "refusal with errno %d / %s", err, vc.log.text().c_str());
-        } else PBT_CHECK(c, rc == 0, "C10.sigma_cover_refused", "standard with a correlated parameter whose sigma grid covers the band (or has one point) refused: %s", vc.log.text().c_str());
+        } else PBT_CHECK(c, rc == 0, "C10.sigma_cover_refused", "standard whose frequency-limited parameter covers the band (or has a one-point sigma) refused: %s", vc.log.text().c_str());
     } else {
         PBT_CHECK(c, rc == 0, "C10.add_before_grid_refused", "add before set_frequency_vector refused: %s", vc.log.text().c_str());
         vc.log.clear(); errno = 0;
         rc = vnacal_new_set_frequency_vector(vnp, cal.data()); err = errno;
-        if (must_refuse) PBT_CHECK(c, rc == -1 && err == EINVAL, "C10.sigma_shortfall_accepted", "set_frequency_vector accepted a band [%g, %g] that the sigma grid [%g, %g] of an already added correlated standard does not cover (rc %d errno %d)", lo, hi, grid.front(), grid.back(), rc, err);
+        if (must_refuse) PBT_CHECK(c, rc == -1 && err == EINVAL, "C10.sigma_shortfall_accepted", "set_frequency_vector accepted a band [%g, %g] that the frequency-limited parameter (defined on [%g, %g]) of an already added standard does not cover (rc %d errno %d)", lo, hi, grid.front(), grid.back(), rc, err);
         else PBT_CHECK(c, rc == 0, "C10.sigma_cover_refused", "set_frequency_vector refused although the sigma grid covers the band: %s", vc.log.text().c_str());
     }
     c.nontrivial();
